@@ -406,6 +406,11 @@ def gen(repo):
     t = Block().tr(body_nodoc(find_func(c, "_verify_input")), {"X": ("xt", "pyty")})
     out.append("Definition scaler_verify_input (xt : pyty) : result unit :=\n  %s.\n" % t)
     tb = body_nodoc(find_func(c, "transform"))
+    # a `with xr.set_options(...)` block around the arithmetic is transparent for the operand list
+    flat = []
+    for s in tb:
+        flat.extend(s.body if isinstance(s, ast.With) else [s])
+    tb = flat
     # which stored arrays the data is combined with, under which flag, in source order
     ops = []
     first_arith = None
@@ -431,7 +436,8 @@ def gen(repo):
     # does Scaler.transform itself refuse data lacking fitted dimensions / differing coordinates
     # before the first arithmetic?  (on the pinned tree: no)
     pre = tb[:first_arith]
-    dims_guard = any(isinstance(s, ast.If) and raises_kind(s.body) and "dims" in ast.unparse(s.test) for s in walk_stmts(pre))
+    pre_src = "\n".join(ast.unparse(x) for x in pre)
+    dims_guard = any(isinstance(s, ast.If) and raises_kind(s.body) and "dims" in pre_src for s in walk_stmts(pre))
     src = ast.unparse(find_func(c, "transform"))
     exact = ("arithmetic_join='exact'" in src) or ("join='exact'" in src)
     out.append("Definition scaler_refuses_missing_dims : bool := %s.\n" % ("true" if dims_guard else "false"))
@@ -519,6 +525,21 @@ def gen(repo):
     names = ["Decomposer", "decomposer.fit"]
     out.append("Definition eof_fit_algorithm_order : list string := %s.\n"
                % coq_strlist(call_order(body_nodoc(find_func(c, "_fit_algorithm")), names)))
+    # ---------------------------------------------------------------- rotators: constructor guards on n_modes
+    for nm, rel, cls in (("eof_rotator", "xeofs/single/eof_rotator.py", "EOFRotator"),
+                         ("cpcca_rotator", "xeofs/cross/cpcca_rotator.py", "CPCCARotator")):
+        tree, _ = parse_file(repo, rel)
+        c = find_class(tree, cls)
+        init = body_nodoc(find_func(c, "__init__"))
+        guards = [s for s in init if isinstance(s, ast.If) and raises_kind(s.body) and not s.orelse
+                  and "n_modes" in ast.unparse(s.test)]
+        t = Block().tr(guards, {"n_modes": ("n_modes", "pyval")})
+        out.append("(* %s.__init__: the guards on n_modes (none on the pinned tree) *)\n"
+                   "Definition %s_check_n_modes (n_modes : pyval) : result unit :=\n  %s.\n" % (cls, nm, t))
+        fa = body_nodoc(find_func(c, "_fit_algorithm"))
+        if "slice(1, n_modes)" not in "\n".join(ast.unparse(x) for x in fa):
+            raise TransError("%s._fit_algorithm does not select modes by slice(1, n_modes)" % cls)
+
     tree, _ = parse_file(repo, "xeofs/linalg/decomposer.py")
     c = find_class(tree, "Decomposer")
     init = body_nodoc(find_func(c, "__init__"))
